@@ -254,6 +254,23 @@ def build(a, periodic=(True, True, True), lattice=None):
     return s
 
 
+def shuffle_R(s, perm=None):
+    """the same system with its R-vectors stored in another order (default: reversed): two systems on the same SET of R-vectors need
+    not store them in the same order. Harness-side (Rvectors constructor as in get_system_sparse); a skip when that is gone"""
+    def do():
+        from wannierberri.fourier.rvectors import Rvectors
+        ir = np.array(s.rvec.iRvec)
+        pm = list(range(len(ir)))[::-1] if perm is None else list(perm)
+        if len(pm) < 2:
+            return False
+        for key in sorted(set(KNOWN_KEYS) | set(known_matrices())):
+            if s.has_R_mat(key):
+                s.set_R_mat(key, np.array(s.get_R_mat(key))[pm], reset=True)
+        s.rvec = Rvectors(lattice=s.real_lattice, iRvec=ir[pm], shifts_left_red=s.wannier_centers_red)
+        return True
+    return bool(private("shuffle_R", do))
+
+
 def _round_int(x, what, scale=1.0):
     y = np.asarray(x) * scale
     r = np.round(y)
